@@ -21,6 +21,13 @@ func main() {
 			usage()
 		}
 		dumpLean(os.Args[2])
+	case "facts":
+		// the source facts of tie T2 with the event sequences they were read from (VERIF_REPO selects the tree)
+		names, vals, src := uciFacts()
+		for i, n := range names {
+			fmt.Printf("%-34s %v\n", n, vals[i])
+		}
+		fmt.Print(src)
 	case "ops":
 		if len(os.Args) < 9 {
 			usage()
